@@ -11,49 +11,89 @@ import (
 	"verif/harness/lib"
 )
 
-// blockID is a block identifier together with the class it was drawn from (the id kind is part
-// of every case key and of every violation signature).
+// blockID is a block identifier as it goes on the wire, together with the class it was drawn
+// from (the id kind is part of every case key and of every violation signature).
 type blockID struct {
-	tag  string    // "number" | "hash" | "latest" | "l1" | "pre"
-	num  uint64    // tag == number
-	hash felt.Felt // tag == hash
-	kind string    // num-existing | num-head | num-l1 | num-missing | hash-existing | hash-missing | hash-reverted | hash-zero | latest | l1_accepted | pre_confirmed
+	tag  string    // "number" | "hash" | "both" (object with both members) | "empty" ({}) | "other" (not a block id at all) | "latest" | "l1" | "str" (any other string)
+	num  uint64    // number, both
+	hash felt.Felt // hash, both
+	str  string    // str
+	kind string    // num-existing | num-head | num-l1 | num-missing | hash-existing | hash-missing | hash-reverted | hash-zero | latest | l1_accepted | tag-pending | tag-pre_confirmed | tag-unknown | obj-both | obj-empty | not-an-id
 }
 
-// json renders the identifier for an API version (v8 has the tag `pending` where later versions
-// have `pre_confirmed`).
-func (b blockID) json(version string) any {
+// json renders the identifier.
+func (b blockID) json() any {
 	switch b.tag {
 	case "number":
 		return map[string]any{"block_number": b.num}
 	case "hash":
 		return map[string]any{"block_hash": b.hash.String()}
+	case "both":
+		return map[string]any{"block_hash": b.hash.String(), "block_number": b.num}
+	case "empty":
+		return map[string]any{}
+	case "other":
+		switch b.num % 3 {
+		case 0:
+			return 5
+		case 1:
+			return []any{"latest"}
+		default:
+			return map[string]any{"block_number": "0x1"} // a string where a number is required
+		}
 	case "latest":
 		return "latest"
 	case "l1":
 		return "l1_accepted"
 	default:
-		if version == "v8" {
-			return "pending"
-		}
-		return "pre_confirmed"
+		return b.str
 	}
 }
 
-// lean renders the identifier for the model driver.
+// lean renders the identifier for the model driver (wire form).
 func (b blockID) lean() string {
 	switch b.tag {
 	case "number":
 		return fmt.Sprintf("n:%x", b.num)
 	case "hash":
 		return "h:" + hxv(b.hash)
+	case "both":
+		return fmt.Sprintf("hn:%s:%x", hxv(b.hash), b.num)
+	case "empty":
+		return "o"
+	case "other":
+		return "x"
 	case "latest":
-		return "latest"
+		return "t:latest"
 	case "l1":
-		return "l1"
+		return "t:l1_accepted"
 	default:
-		return "pre"
+		return "t:" + b.str
 	}
+}
+
+// sem is what the identifier means to an API version (per the API specifications): number,
+// hash, latest, l1, pre (pre_confirmed, v0.9+), pending (v0.8), or invalid.
+func (b blockID) sem(version string) string {
+	switch b.tag {
+	case "number", "hash", "latest":
+		return b.tag
+	case "both":
+		return "hash"
+	case "l1":
+		if version == "v8" {
+			return "invalid"
+		}
+		return "l1"
+	case "str":
+		switch {
+		case b.str == "pending" && version == "v8":
+			return "pending"
+		case b.str == "pre_confirmed" && version != "v8":
+			return "pre"
+		}
+	}
+	return "invalid"
 }
 
 // query is one read request, independent of API version and backend.
@@ -69,6 +109,8 @@ type query struct {
 	class  felt.Felt
 	filter []felt.Felt // v10 getStateUpdate contract_addresses (nil: absent)
 	named  bool        // pass params by name instead of by position
+
+	proofFacts bool // v10: pass response_flags ["INCLUDE_PROOF_FACTS"] (block with txs / receipts, tx by hash / index)
 }
 
 var rpcName = map[string]string{
@@ -84,6 +126,7 @@ var rpcName = map[string]string{
 	"txStatus":           "starknet_getTransactionStatus",
 	"stateUpdate":        "starknet_getStateUpdate",
 	"storage":            "starknet_getStorageAt",
+	"storageLU":          "starknet_getStorageAt", // with response_flags INCLUDE_LAST_UPDATE_BLOCK (a v0.10 parameter)
 	"nonce":              "starknet_getNonce",
 	"classHashAt":        "starknet_getClassHashAt",
 	"class":              "starknet_getClass",
@@ -104,9 +147,12 @@ func (q *query) params(version string) any {
 	case "blockNumber", "blockHashAndNumber":
 		return nil
 	case "blockTxHashes", "blockTxs", "blockReceipts", "txCount":
-		ps = []kv{{"block_id", q.id.json(version)}}
+		ps = []kv{{"block_id", q.id.json()}}
+		if q.proofFacts && version == "v10" && (q.method == "blockTxs" || q.method == "blockReceipts") {
+			ps = append(ps, kv{"response_flags", []string{"INCLUDE_PROOF_FACTS"}})
+		}
 	case "stateUpdate":
-		ps = []kv{{"block_id", q.id.json(version)}}
+		ps = []kv{{"block_id", q.id.json()}}
 		if version == "v10" && q.filter != nil {
 			l := make([]string, len(q.filter))
 			for i := range q.filter {
@@ -116,14 +162,23 @@ func (q *query) params(version string) any {
 		}
 	case "txByHash", "receipt", "txStatus":
 		ps = []kv{{"transaction_hash", q.txHash.String()}}
+		if q.proofFacts && version == "v10" && q.method == "txByHash" {
+			ps = append(ps, kv{"response_flags", []string{"INCLUDE_PROOF_FACTS"}})
+		}
 	case "txByIdx":
-		ps = []kv{{"block_id", q.id.json(version)}, {"index", q.index}}
+		ps = []kv{{"block_id", q.id.json()}, {"index", q.index}}
+		if q.proofFacts && version == "v10" {
+			ps = append(ps, kv{"response_flags", []string{"INCLUDE_PROOF_FACTS"}})
+		}
 	case "storage":
-		ps = []kv{{"contract_address", q.addr.String()}, {"key", q.key.String()}, {"block_id", q.id.json(version)}}
+		ps = []kv{{"contract_address", q.addr.String()}, {"key", q.key.String()}, {"block_id", q.id.json()}}
+	case "storageLU":
+		ps = []kv{{"contract_address", q.addr.String()}, {"key", q.key.String()}, {"block_id", q.id.json()},
+			{"response_flags", []string{"INCLUDE_LAST_UPDATE_BLOCK"}}}
 	case "nonce", "classHashAt", "classAt":
-		ps = []kv{{"block_id", q.id.json(version)}, {"contract_address", q.addr.String()}}
+		ps = []kv{{"block_id", q.id.json()}, {"contract_address", q.addr.String()}}
 	case "class":
-		ps = []kv{{"block_id", q.id.json(version)}, {"class_hash", q.class.String()}}
+		ps = []kv{{"block_id", q.id.json()}, {"class_hash", q.class.String()}}
 	default:
 		panic("unknown method " + q.method)
 	}
@@ -160,8 +215,12 @@ func (q *query) leanLine(version, backend string) string {
 	case "txByHash", "receipt", "txStatus":
 		s += " " + hxv(q.txHash)
 	case "txByIdx":
-		s += fmt.Sprintf(" %s %x", q.id.lean(), q.index)
-	case "storage":
+		if q.index < 0 {
+			s += fmt.Sprintf(" %s -%x", q.id.lean(), -q.index)
+		} else {
+			s += fmt.Sprintf(" %s %x", q.id.lean(), q.index)
+		}
+	case "storage", "storageLU":
 		s += " " + q.id.lean() + " " + hxv(q.addr) + " " + hxv(q.key)
 	case "nonce", "classHashAt", "classAt":
 		s += " " + q.id.lean() + " " + hxv(q.addr)
@@ -236,7 +295,16 @@ func (w *world) blockIDs(r *lib.RNG) []*blockID {
 	}
 	add(blockID{tag: "latest", kind: "latest"})
 	add(blockID{tag: "l1", kind: "l1_accepted"})
-	add(blockID{tag: "pre", kind: "pre_confirmed"})
+	add(blockID{tag: "str", str: "pending", kind: "tag-pending"})
+	add(blockID{tag: "str", str: "pre_confirmed", kind: "tag-pre_confirmed"})
+	add(blockID{tag: "str", str: lib.Pick(r, []string{"", "Latest", "earliest", "0x1", "pre-confirmed"}), kind: "tag-unknown"})
+	add(blockID{tag: "empty", kind: "obj-empty"})
+	add(blockID{tag: "other", num: uint64(r.Intn(3)), kind: "not-an-id"})
+	if h > 0 {
+		// both members: block_hash wins
+		m := r.Intn(h)
+		add(blockID{tag: "both", hash: *w.g.Bundles[m].Block.Hash, num: uint64(h + 3), kind: "obj-both"})
+	}
 	return ids
 }
 
@@ -297,6 +365,10 @@ func (w *world) round(r *lib.RNG, pairsPerID, txPerKind int) []*query {
 	var qs []*query
 	add := func(q query) {
 		q.named = r.Bool()
+		switch q.method {
+		case "blockTxs", "blockReceipts", "txByHash", "txByIdx":
+			q.proofFacts = r.Chance(1, 3)
+		}
 		qs = append(qs, &q)
 	}
 	add(query{method: "blockNumber"})
@@ -324,7 +396,7 @@ func (w *world) round(r *lib.RNG, pairsPerID, txPerKind int) []*query {
 		if n, ok := w.propResolve(id); ok {
 			cnt = len(w.g.Bundles[n].Block.Transactions)
 		}
-		idxs := map[int]string{0: "idx-first", cnt: "idx-count", cnt + 1 + r.Intn(1000): "idx-far"}
+		idxs := map[int]string{0: "idx-first", cnt: "idx-count", cnt + 1 + r.Intn(1000): "idx-far", -1 - r.Intn(3): "idx-negative"}
 		if cnt > 0 {
 			idxs[cnt-1] = "idx-last"
 			idxs[r.Intn(cnt)] = "idx-inside"
@@ -397,6 +469,9 @@ func (w *world) round(r *lib.RNG, pairsPerID, txPerKind int) []*query {
 				a, k = lib.Pick(r, addrs), lib.Pick(r, slots)
 			}
 			add(query{method: "storage", id: id, addr: a, key: k, sub: addrKind(&a)})
+			if i == 0 {
+				add(query{method: "storageLU", id: id, addr: a, key: k, sub: addrKind(&a)})
+			}
 		}
 		for i := 0; i < pairsPerID; i++ {
 			a := lib.Pick(r, addrs)
@@ -463,4 +538,156 @@ func (w *world) classUniverse() []classPick {
 	out = append(out, classPick{w.g.ClassHash(0), "class-undeclared"}, classPick{*lib.F(0x31337), "class-undeclared"},
 		classPick{felt.Zero, "class-undeclared"})
 	return out
+}
+
+// warm: questions about the top blocks (those a reorg is about to drop) through every kind of id
+// and every method, so that anything on the read path that memoises has seen them.
+func (w *world) warm(r *lib.RNG) []*query {
+	var qs []*query
+	add := func(q query) {
+		q.named = r.Bool()
+		qs = append(qs, &q)
+	}
+	h := w.height()
+	addrs := w.addrUniverse()
+	for n := h - 1; n >= 0 && n >= h-3; n-- {
+		b := w.g.Bundles[n]
+		ids := []*blockID{{tag: "number", num: uint64(n), kind: "num-existing"}, {tag: "hash", hash: *b.Block.Hash, kind: "hash-existing"}}
+		if n == h-1 {
+			ids = append(ids, &blockID{tag: "latest", kind: "latest"})
+		}
+		for _, id := range ids {
+			for _, m := range blockMethods {
+				add(query{method: m, id: id})
+			}
+			add(query{method: "txByIdx", id: id, index: 0, sub: "idx-first"})
+			for _, p := range w.writtenPairs() {
+				if r.Chance(1, 3) {
+					add(query{method: "storage", id: id, addr: p[0], key: p[1], sub: addrKind(&p[0])})
+				}
+			}
+			for _, a := range addrs {
+				if r.Chance(1, 3) {
+					a := a
+					add(query{method: "nonce", id: id, addr: a, sub: addrKind(&a)})
+					add(query{method: "classAt", id: id, addr: a, sub: addrKind(&a)})
+				}
+			}
+			for c := range b.Classes {
+				add(query{method: "class", id: id, class: c, sub: "class-declared"})
+				break
+			}
+		}
+		for _, tx := range b.Block.Transactions {
+			for _, m := range []string{"txByHash", "receipt", "txStatus"} {
+				add(query{method: m, txHash: *tx.Hash(), sub: "tx-existing"})
+			}
+		}
+	}
+	add(query{method: "blockNumber"})
+	add(query{method: "blockHashAndNumber"})
+	return qs
+}
+
+// exhaustive: the whole space of a small chain — every block number 0..height+1, every hash the
+// node ever saw, every tag and malformed id, x every method; every index -1..count+1; every
+// transaction hash ever seen; every (address, slot) and class of the universes.
+func (w *world) exhaustive() []*query {
+	var qs []*query
+	flip := false
+	add := func(q query) {
+		flip = !flip
+		q.named = flip
+		qs = append(qs, &q)
+	}
+	h := w.height()
+	var ids []*blockID
+	for n := 0; n <= h+1; n++ {
+		kind := "num-existing"
+		switch {
+		case n >= h:
+			kind = "num-missing"
+		case n == h-1:
+			kind = "num-head"
+		case w.l1 != nil && (uint64(n) == *w.l1 || uint64(n) == *w.l1+1):
+			kind = "num-l1"
+		}
+		ids = append(ids, &blockID{tag: "number", num: uint64(n), kind: kind})
+	}
+	for _, b := range w.g.Bundles {
+		ids = append(ids, &blockID{tag: "hash", hash: *b.Block.Hash, kind: "hash-existing"})
+	}
+	for i := range w.revertedBlocks {
+		if !w.onChain(&w.revertedBlocks[i]) {
+			ids = append(ids, &blockID{tag: "hash", hash: w.revertedBlocks[i], kind: "hash-reverted"})
+		}
+	}
+	ids = append(ids, &blockID{tag: "hash", hash: felt.Zero, kind: "hash-zero"}, &blockID{tag: "hash", hash: *lib.F(0xabcdef), kind: "hash-missing"},
+		&blockID{tag: "latest", kind: "latest"}, &blockID{tag: "l1", kind: "l1_accepted"},
+		&blockID{tag: "str", str: "pending", kind: "tag-pending"}, &blockID{tag: "str", str: "pre_confirmed", kind: "tag-pre_confirmed"},
+		&blockID{tag: "str", str: "earliest", kind: "tag-unknown"}, &blockID{tag: "empty", kind: "obj-empty"},
+		&blockID{tag: "other", num: 0, kind: "not-an-id"}, &blockID{tag: "other", num: 1, kind: "not-an-id"}, &blockID{tag: "other", num: 2, kind: "not-an-id"})
+	if h > 0 {
+		ids = append(ids, &blockID{tag: "both", hash: *w.g.Bundles[0].Block.Hash, num: uint64(h - 1), kind: "obj-both"})
+	}
+	add(query{method: "blockNumber"})
+	add(query{method: "blockHashAndNumber"})
+	addrs, slots, classes := w.addrUniverse(), w.slotUniverse(), w.classUniverse()
+	for _, id := range ids {
+		for _, m := range blockMethods {
+			add(query{method: m, id: id})
+		}
+		cnt := 0
+		if n, ok := w.propResolve(id); ok {
+			cnt = len(w.g.Bundles[n].Block.Transactions)
+		}
+		for i := -1; i <= cnt+1; i++ {
+			sub := "idx-inside"
+			switch {
+			case i < 0:
+				sub = "idx-negative"
+			case i == cnt:
+				sub = "idx-count"
+			case i > cnt:
+				sub = "idx-far"
+			case i == 0:
+				sub = "idx-first"
+			case i == cnt-1:
+				sub = "idx-last"
+			}
+			add(query{method: "txByIdx", id: id, index: i, sub: sub})
+		}
+		for i := range addrs {
+			a := addrs[i]
+			for _, k := range slots {
+				add(query{method: "storage", id: id, addr: a, key: k, sub: addrKind(&a)})
+				add(query{method: "storageLU", id: id, addr: a, key: k, sub: addrKind(&a)})
+			}
+			add(query{method: "nonce", id: id, addr: a, sub: addrKind(&a)})
+			add(query{method: "classHashAt", id: id, addr: a, sub: addrKind(&a)})
+			add(query{method: "classAt", id: id, addr: a, sub: addrKind(&a)})
+		}
+		for _, c := range classes {
+			add(query{method: "class", id: id, class: c.h, sub: c.kind})
+		}
+	}
+	for _, b := range w.g.Bundles {
+		for _, tx := range b.Block.Transactions {
+			for _, m := range []string{"txByHash", "receipt", "txStatus"} {
+				add(query{method: m, txHash: *tx.Hash(), sub: "tx-existing"})
+			}
+		}
+	}
+	for i := range w.revertedTxs {
+		if !w.txOnChain(&w.revertedTxs[i]) {
+			for _, m := range []string{"txByHash", "receipt", "txStatus"} {
+				add(query{method: m, txHash: w.revertedTxs[i], sub: "tx-reverted"})
+			}
+		}
+	}
+	for _, m := range []string{"txByHash", "receipt", "txStatus"} {
+		add(query{method: m, txHash: felt.Zero, sub: "tx-zero"})
+		add(query{method: m, txHash: *lib.F(0x123456), sub: "tx-missing"})
+	}
+	return qs
 }
